@@ -69,7 +69,9 @@ func alphabet() []treefs.Op {
 	w("f", "N1-longer")
 	// mutations through child views and with non-canonical spellings (the cache sees "/d/h", "./f")
 	a = append(a, treefs.Op{Kind: "WriteFile", P: "./f", Data: "N5"}, treefs.Op{Kind: "WriteFile", P: "h", Data: "N6", View: []string{"d"}},
-		treefs.Op{Kind: "Remove", P: "f", View: []string{"d"}}, treefs.Op{Kind: "MkdirAll", P: "k", View: []string{"x"}})
+		treefs.Op{Kind: "Remove", P: "f", View: []string{"d"}}, treefs.Op{Kind: "MkdirAll", P: "k", View: []string{"x"}},
+		// (a child view whose directory name starts with a dot - next to a sibling named like it without the dot)
+		treefs.Op{Kind: "WriteFile", P: "y", Data: "N9", View: []string{".x"}})
 	a = append(a, treefs.Op{Kind: "Commit"})
 	return a
 }
@@ -165,7 +167,7 @@ type runOut struct {
 	commitErr   string
 }
 
-var readPool = []string{"d2", "d2/f", "f/sub", "f", "d", "d/f", "d/g", "d/h", "d/k", "e", "d/e", "d/e/f", "d/e/h", "x", "x/y", "x2", "y", "y/f", "z", "e2", "."}
+var readPool = []string{"d2", "d2/f", "f/sub", "f", "d", "d/f", "d/g", "d/h", "d/k", "e", "d/e", "d/e/f", "d/e/h", "x", "x/y", ".x/y", "x2", "y", "y/f", "z", "e2", "."}
 
 // execute runs one case with both oracles.
 func execute(cs Case, wantC06, wantC07 bool) runOut {
